@@ -486,6 +486,7 @@ PROPS["C14"] = {
         ("c14_chol3_factor_is_llt", dict(unit="DenseMatrixSym3::cholesky_3x3_explicit_factor", inst="GF(13)", bounds="all symmetric 3x3 H", oracle="success => L L' == H, nonzero diagonal; failure => a leading principal minor vanishes", timeout=1800, mem_gb=20)),
         ("c14_pow_grad_is_derivative_of_dual_barrier", dict(unit="PowerCone::barrier_dual / update_dual_grad_H", inst="Jet<GF(13)>", bounds="all z != 0, all alpha", oracle="d f*(z)/dz_j == grad[j]", timeout=2400, mem_gb=20)),
         ("c14_pow_hessian_is_derivative_of_grad", dict(unit="PowerCone::update_dual_grad_H", inst="Jet<GF(13)>", bounds="all z, alpha, j", oracle="d grad[i]/dz_j == H[i][j]", timeout=2400, mem_gb=20)),
+        ("c14_pow_gradient_primal_assembly", dict(stubs=True, nofloat=True, unit="PowerCone::gradient_primal (the Newton-Raphson scalar solve _newton_raphson_powcone stubbed: arbitrary positive power of two)", inst="f64, factors powers of two (alpha in {1/8,1/4,1/2}, s_i = +-2^k, |k| <= 10)", bounds="-", oracle="g3 has the sign of s3; g1 = -(a g3 s3 + 1 + a)/s1, g2 = -((1-a) g3 s3 + 2 - a)/s2 for THAT g3 (=> <s,g> = -3 whatever the scalar solve returns)", timeout=1200)),
         ("c14_dual_scaling_is_mu_times_hessian", dict(unit="Nonsymmetric3DConeUtils::use_dual_scaling, ExponentialCone::get_Hs / mul_Hs", inst="GF(13)", bounds="all H, mu, x", oracle="Hs == mu H; get_Hs / mul_Hs expose Hs", timeout=1200)),
     ]),
 }
